@@ -942,7 +942,7 @@ def main(argv=None):
         if it.extra.get('informational_failures'):
             print(f'         (information only) {it.extra["informational_failures"]}')
     bad = [i for i in items if i.status != 'clean']
-    print(f'C19 bounded [{tier}]: {len(items)} items, {len(bad)} refuted, {sum(i.extra.get("cases", 0) for i in items)} cases, {time.time() - t:.1f}s')
+    print(f'C19 bounded [{tier}]: {len(items)} items, {len(bad)} refuted, {sum({i.id.split("/")[1]: i.extra.get("cases", 0) for i in items}.values())} cases, {time.time() - t:.1f}s')
     return 1 if bad else 0
 
 
